@@ -17,6 +17,7 @@ import (
 	"go/token"
 	"go/types"
 	"os"
+	"regexp"
 	"sort"
 	"strings"
 
@@ -788,7 +789,101 @@ func (n *normalizer) rewriteStmt(s ast.Stmt, caller string) []edit {
 			eds, _ = n.rewriteStmt1(s, caller)
 		}
 	}
+	eds = append(eds, n.pureSubst(s, caller)...)
 	n.reportUnmatched(s)
+	return eds
+}
+
+var preLine = regexp.MustCompile(`^var (inl\d+_a\d+)( [^=]+?)? = (.*)$`)
+
+// pureSubst: a call of an unknown one-expression boolean predicate whose arguments (and receiver) are plain names,
+// literals or selections of names is replaced where it stands by the predicate's expression with the arguments
+// substituted - anywhere in the statement's own expressions (the operands of && and ||, call arguments, the cases of a
+// switch). Pure arguments may be evaluated later, or more than once, without any difference.
+func (n *normalizer) pureSubst(s ast.Stmt, caller string) []edit {
+	var eds []edit
+	var visit func(x ast.Node) bool
+	try := func(y *ast.CallExpr) bool {
+		call, callee, _ := n.target(y)
+		if call == nil || call != y {
+			return false
+		}
+		for _, a := range call.Args {
+			if !pureOperand(a) {
+				return false
+			}
+		}
+		if sel, ok := ast.Unparen(call.Fun).(*ast.SelectorExpr); ok && !pureOperand(sel.X) {
+			return false
+		}
+		inl, skp, cnt := len(n.res.Inlined), len(n.res.Skipped), n.counter
+		undo := func() {
+			n.res.Inlined = n.res.Inlined[:inl]
+			n.res.Skipped = n.res.Skipped[:skp]
+			n.counter = cnt
+		}
+		pre, temps, ok := n.inline(call, callee, caller)
+		if !ok || len(temps) != 1 || !strings.HasPrefix(temps[0], "(") {
+			undo()
+			return false
+		}
+		text := temps[0]
+		for _, line := range strings.Split(strings.TrimSpace(pre), "\n") {
+			if line == "" {
+				continue
+			}
+			m := preLine.FindStringSubmatch(line)
+			if m == nil {
+				undo()
+				return false
+			}
+			repl := "(" + m[3] + ")"
+			if t := strings.TrimSpace(m[2]); t != "" {
+				repl = "(" + t + ")(" + m[3] + ")"
+			}
+			text = regexp.MustCompile(`\b`+m[1]+`\b`).ReplaceAllLiteralString(text, repl)
+		}
+		if os.Getenv("KVERIF_DEBUG") != "" {
+			fmt.Fprintf(os.Stderr, "puresubst %s: pre=%q text=%q\n", callee.Name(), pre, text)
+		}
+		eds = append(eds, edit{n.off(call.Pos()), n.off(call.End()), text})
+		return true
+	}
+	visit = func(x ast.Node) bool {
+		if x == nil {
+			return true
+		}
+		switch y := x.(type) {
+		case *ast.FuncLit:
+			return false
+		case *ast.SwitchStmt:
+			// the clauses are statements of their own (visited as s below); here only the tag
+			if x == ast.Node(s) && y.Tag != nil {
+				ast.Inspect(y.Tag, visit)
+			}
+			return false
+		case *ast.CaseClause:
+			if x == ast.Node(s) {
+				for _, e := range y.List {
+					ast.Inspect(e, visit)
+				}
+			}
+			return false
+		case *ast.BlockStmt, *ast.CommClause:
+			return x == ast.Node(s)
+		case *ast.IfStmt, *ast.ForStmt, *ast.RangeStmt, *ast.TypeSwitchStmt, *ast.SelectStmt:
+			// their bodies are statements of their own; only the header expressions of s itself are looked at
+			if x != ast.Node(s) {
+				return false
+			}
+		case *ast.CallExpr:
+			if try(y) {
+				return false
+			}
+		}
+		return true
+	}
+	ast.Inspect(s, visit)
 	return eds
 }
 
@@ -840,6 +935,21 @@ func (n *normalizer) rewriteStmt0(s ast.Stmt, caller string) []edit {
 						lhs = append(lhs, n.text(l))
 					}
 					return []edit{{n.off(s.Pos()), n.off(s.End()), pre + "\n" + strings.Join(lhs, ", ") + " " + st.Tok.String() + " " + strings.Join(temps, ", ")}}
+				}
+			}
+		}
+	case *ast.DeclStmt:
+		// var x [T] = h(..)   (also the form the argument bindings of an earlier inlining take)
+		if gd, ok := st.Decl.(*ast.GenDecl); ok && gd.Tok == token.VAR && len(gd.Specs) == 1 {
+			if vs, ok := gd.Specs[0].(*ast.ValueSpec); ok && len(vs.Names) == 1 && len(vs.Values) == 1 {
+				if call, callee, neg := n.target(vs.Values[0]); call != nil && !neg {
+					if pre, temps, ok := n.inline(call, callee, caller); ok && len(temps) == 1 {
+						typ := ""
+						if vs.Type != nil {
+							typ = " " + n.text(vs.Type)
+						}
+						return []edit{{n.off(s.Pos()), n.off(s.End()), pre + "\nvar " + vs.Names[0].Name + typ + " = " + temps[0]}}
+					}
 				}
 			}
 		}
